@@ -42,7 +42,7 @@ def check(case):
     import desolver as de
     method = case["method"]
     fam = M.family(M.get(method))
-    rich = fam == "richardson"
+    rich = False     # (since fix 3f44fc1 Richardson wrappers provide one Hermite piece per step and are judged like every other method)
     attrs = dict(method=method, family=fam, dense=bool(case["dense"]))
     backward = case["tf"] < case["t0"]
     sgn = -1.0 if backward else 1.0
